@@ -566,6 +566,11 @@ func (f *FuncVC) loopHead(st *State, li *loopInfo) {
 			f.sc.add("; loop invariant (assumed) " + c.Text)
 			f.assume(st, ev.evalBool(c.Expr))
 		}
+		for _, c := range li.con.FreeInvariants {
+			f.sc.add("; FREE loop invariant (assumed, unchecked) " + c.Text)
+			f.assume(st, ev.evalBool(c.Expr))
+			f.usedAssumed[fmt.Sprintf("UNCHECKED free invariant in %s loop %d: %s", f.name(), li.ordinal, c.Text)] = true
+		}
 		if li.con.Decreases != nil {
 			d := ev.eval(li.con.Decreases.Expr)
 			li.d0 = f.sc.define("dec0", "Int", d.T)
